@@ -1,0 +1,18 @@
+// SPDX-License-Identifier: GPL-3.0-or-later
+
+//go:build verif
+// +build verif
+
+package cla
+
+import "time"
+
+// VerifTickerHook, if set, is called by a Manager's handler goroutine right after it created its retry
+// ticker and may replace the ticker's channel. Only compiled with the "verif" build tag.
+var VerifTickerHook func(manager *Manager, ticker *time.Ticker)
+
+func verifTicker(manager *Manager, ticker *time.Ticker) {
+	if VerifTickerHook != nil {
+		VerifTickerHook(manager, ticker)
+	}
+}
